@@ -344,6 +344,48 @@ func chunkEvents(payload []byte) (evs []string, total int) {
 	}
 }
 
+func chunkEventsFrom(rd io.Reader) (evs []string) {
+	dec := cbor.NewDecoder(rd)
+	for {
+		var entry []byte
+		if err := dec.Decode(&entry); err != nil {
+			if errors.Is(err, io.EOF) {
+				return append(evs, "DEof")
+			}
+			return append(evs, "DErr")
+		}
+		if entry == nil {
+			evs = append(evs, "DItem None")
+		} else {
+			evs = append(evs, "DItem (Some "+cb(entry)+")")
+		}
+	}
+}
+
+// chunkRawCases: DETERMINISTIC chunks whose snappy framing is broken and followed by more bytes
+// (the digest in the manifest is the hash of exactly these bytes): a decode failure, not a
+// corrupted transfer.
+func chunkRawCases() []Case {
+	var es [][]byte
+	genSubtree(prng.New(0xb0d), 0, 0, 2, &es)
+	var payload []byte
+	for _, e := range es {
+		payload = append(payload, cbor.Marshal(e)...)
+	}
+	good := chunkWrap(payload)
+	raws := [][]byte{
+		[]byte("no snappy stream identifier here"),
+		append(append([]byte{}, good...), 0x02, 0x03, 0x00, 0x00, 1, 2, 3, 9, 9, 9, 9), // reserved unskippable frame + trailing bytes
+		append(append([]byte{}, good[:len(good)/2]...), 0xfe, 0xff, 0xff, 0xff, 7, 7, 7, 7, 7),
+		append([]byte{0xff, 0x06, 0x00, 0x00, 's', 'N', 'a', 'P', 'p', 'Y', 0x00, 0x05, 0x00, 0x00, 1, 2, 3, 4, 5}, []byte("trailing bytes")...), // bad checksum
+	}
+	var out []Case
+	for _, r := range raws {
+		out = append(out, Case{Kind: "chunk", Mode: 1, Data: hex.EncodeToString(r), Origin: "boundary:raw-snappy"})
+	}
+	return out
+}
+
 func chunkWrap(payload []byte) []byte {
 	var buf bytes.Buffer
 	w := snappy.NewBufferedWriter(&buf)
@@ -402,8 +444,17 @@ func errCodeStr(s string) int {
 func runChunkCase(c Case) (o outcome) {
 	chunkInit()
 	payload := unhex(c.Data)
-	evs, _ := chunkEvents(payload)
-	framed := chunkWrap(payload)
+	var evs []string
+	var framed []byte
+	if c.Mode == 1 {
+		// Data is the RAW chunk (possibly with broken snappy framing): the decoder events are
+		// those of the CBOR stream decoder over the snappy reader, as in restoreChunk
+		framed = payload
+		evs = chunkEventsFrom(snappy.NewReader(bytes.NewReader(framed)))
+	} else {
+		evs, _ = chunkEvents(payload)
+		framed = chunkWrap(payload)
+	}
 	var err error
 	g := guarded(func() { err = chunkTarget.fn(framed) })
 	in := fmt.Sprintf("CChunk true [%s]", strings.Join(evs, "; "))
